@@ -12,12 +12,14 @@ THEOREMS = ["cid_self_certifying", "malformed_dropped", "prefix_roundtrip", "bat
             "presence_within_limit", "blocks_sent_regardless_of_presences",
             "response_delivered_or_dropped_whole", "cached_failure_requeues_whole",
             "fresh_substream_runs_queue_in_order", "queue_untouched_by_other_events",
-            "per_frame_timeout_only", "slow_link_flushes_whole_queue", "frame_over_timeout_fails_call"]
-CONSTS = ["MAX_MESSAGE_SIZE", "MAX_BATCH_SIZE", "MAX_BATCH_BLOCKS", "BITSWAP_WRITE_TIMEOUT_SECS"]
+            "per_frame_timeout_only", "slow_link_flushes_whole_queue", "frame_over_timeout_fails_call",
+            "response_command_never_dropped"]
+CONSTS = ["MAX_MESSAGE_SIZE", "MAX_BATCH_SIZE", "MAX_BATCH_BLOCKS", "BITSWAP_WRITE_TIMEOUT_SECS", "BITSWAP_CMD_CHANNEL_SIZE"]
 _CFG = "src/protocol/libp2p/bitswap/config.rs"
 _MOD = "src/protocol/libp2p/bitswap/mod.rs"
 _WT_RX = r"const WRITE_TIMEOUT: Duration = Duration::from_secs\(([^)]+)\);"
 CONST_TABLE = [
+    ("BITSWAP_CMD_CHANNEL_SIZE", "src/lib.rs", r"const DEFAULT_CHANNEL_SIZE: usize = (\d+)usize;", 4096),
     ("BITSWAP_WRITE_TIMEOUT_SECS", _MOD, _WT_RX, 15),
     ("MAX_MESSAGE_SIZE", _CFG, r"pub const MAX_MESSAGE_SIZE: usize = ([^;]+);", 4194304),
     ("MAX_BATCH_SIZE", _CFG, r"pub const MAX_BATCH_SIZE: usize = ([^;]+);", 2097152),
@@ -48,7 +50,11 @@ MANIFEST = {
             "within WRITE_TIMEOUT a call writes all messages of its action however long that takes in total), "
             "slow_link_flushes_whole_queue (the actions queued during the open / dial are all sent, in order, over such a "
             "substream and it is cached), frame_over_timeout_fails_call (a message slower than WRITE_TIMEOUT fails its "
-            "call after exactly the messages before it); plus a seeded correspondence run of the real functions (send_response over an in-memory yamux "
+            "call after exactly the messages before it); the command channel between BitswapHandle and run() (Model/Bitswap/Cmd.lean: "
+            "the bounded channel of Model/Kad/Events.lean with the user as producer): response_command_never_dropped (whatever "
+            "the capacity and however many commands are handed over while the loop is not polled - the user's send().await "
+            "suspends at a full channel - the loop receives exactly the commands handed over, each once, in order, and the state "
+            "is that of handling them all); plus a seeded correspondence run of the real functions (send_response over an in-memory yamux "
             "substream with the codec of the real Config, on_message_received on a real Bitswap instance; the real Bitswap::run() loop with its BitswapHandle and a "
             "real TransportService on a paused tokio clock, the harness playing connections, dials, substream "
             "opens/failures, inbound messages (whole, in pieces with virtual time in between, or held back across other "
@@ -85,9 +91,13 @@ RULE = ("seeded cases of 4-9 operations: prefix_enc/prefix_dec (boundary values,
         "pieces with 0 ms .. 10 min between them or held back across other operations, inbound want-lists of every shape (valid v0/v1 CIDs, truncated at any offset, "
         "trailing bytes, bad versions, want types 0..2^31-1), inbound blocks and presences, undecodable / oversized / "
         "closed / reset inbound substreams; "
+        "three burst cases per run (more in the thorough tier): N one-block responses handed to the real BitswapHandle "
+        "while run() is not polled, N = capacity of the command channel (exactly full), capacity + 1 (the user's future "
+        "suspends holding the last one) and capacity + 2..300, over the cached substream / queued behind the open of a "
+        "fresh one / queued behind a dial - every block must be written exactly once, in the order handed over; "
         "distinct = distinct (ops, observations) transcripts by SHA-256")
 TRUSTED_BASE = ["Lean 4.33 kernel", "axioms: propext, Classical.choice, Quot.sound only",
-                "hand-written models Model/Bitswap/{Prefix,Batch,Proto}.lean tied to bitswap/mod.rs by this correspondence run",
+                "hand-written models Model/Bitswap/{Prefix,Batch,Proto,Cmd}.lean (Cmd: the bounded command channel, on Model/Kad/Events.lean) tied to bitswap/mod.rs by this correspondence run",
                 "adapters /repo/src/verif/c20.rs and c20_proto.rs (one hook line in Bitswap::run publishing the maps), "
                 "harness, verif.py, checks/c20.py",
                 "protocol level: tokio (paused clock), TransportService, the mpsc channels and Substream::send_framed are "
@@ -950,6 +960,43 @@ def long_response(rng, sim, n):
     return ",".join(items)
 
 
+CMD_CAP = 4096      # capacity of the handle -> event loop command channel (checked against the repo: CONST_TABLE)
+
+
+def burst_block(i):
+    """block of response `i` of a `burst` (adapter and driver use the same rule)"""
+    return (1 + i // 251, i % 251)
+
+
+def gen_burst_case(rng, n, variant):
+    """More responses than the command channel holds, handed over while the event loop is not polled: `cached`: over the
+    substream the protocol already holds; `fresh`: queued behind the open of a substream, flushed when it opens; `dial`:
+    queued behind the dial (peer not connected yet)."""
+    kind = rng.choice(PKINDS)
+    p = rng.choice([1, 2, 3])
+    ops = ["pnew"]
+    if variant == "cached":
+        ops += [f"conn {p}", f"req {p} k={kind} b1", "subopen s0", f"burst {p} {n} k={kind}"]
+    elif variant == "fresh":
+        ops += [f"conn {p}", f"burst {p} {n} k={kind}", "subopen s0"]
+    else:
+        ops += [f"burst {p} {n} k={kind}", f"conn {p}", "subopen s0"]
+    if rng.random() < 0.5:
+        ops.append(f"resp {p} k={kind} b40.7")
+    return ops
+
+
+def burst_cases(rng, tier):
+    """per run: one burst well above the capacity, the two boundaries (exactly full: no suspension; one more: the last
+    command is the one the user is suspended with)"""
+    variants = ["cached", "fresh", "dial"]
+    rng.shuffle(variants)
+    plan = [(CMD_CAP + 1 + rng.randrange(1, 300), variants[0]), (CMD_CAP + 1, variants[1]), (CMD_CAP, variants[2])]
+    if tier != "quick":
+        plan += [(CMD_CAP + rng.randrange(1, 1500), v) for v in variants] + [(rng.randrange(1, 200), v) for v in variants]
+    return [gen_burst_case(rng, n, v) for n, v in plan]
+
+
 def gen_proto_case(rng, tier):
     """One protocol-level dialogue on the real event loop."""
     sim = Sim()
@@ -1245,7 +1292,10 @@ def gen_cases(rng, tier):
         yield from exhaustive_vectors(4)
     # protocol-level dialogues (real event loop) interleaved with the codec / batching cases
     every = {"quick": 5, "thorough": 4, "search": 3}[tier]
+    bursts = burst_cases(rng, tier)
     for i in range(n):
+        if i % 40 == 7 and bursts:
+            yield bursts.pop()
         if i % every == 0:
             yield gen_proto_case(rng, tier)
         else:
@@ -1352,7 +1402,7 @@ def must_deliver(p):
 
 # ------------------------------------------------------------------ protocol level: oracle
 
-PROTO_OPS = {"conn", "disc", "conndead", "dialfail", "view", "subopen", "subfail", "plan", "resp", "req", "insub",
+PROTO_OPS = {"conn", "disc", "conndead", "dialfail", "view", "subopen", "subfail", "plan", "resp", "burst", "req", "insub",
              "inmsg", "inbad", "inbig", "inclose", "inreset", "inrest"}
 
 
@@ -1446,6 +1496,7 @@ class ProtoOracle:
         self.dead_subs = set()       # ... whose connection was closed afterwards
         self.held = {}               # i<k> -> tokens of the `inmsg` whose frame is incomplete
         self.in_alive = {}           # i<k> -> peer: inbound substreams the environment has not ended
+        self.bursts = []             # dicts: step, peer, j0 (index of its first response in handed), n, clean
 
     def note_excuse(self, p, i):
         self.excuse.setdefault(p, []).append(i)
@@ -1508,6 +1559,18 @@ class ProtoOracle:
                     h["wants"].append((int(x[1:]), 0 if x[0] == "b" else 1))
                     self.owner.setdefault(("w", int(x[1:])), len(self.handed))
             self.handed.append(h)
+        elif op == "burst" and (res == "ok" or res.startswith("sus")):
+            p, cnt = int(t[1]), int(t[2])
+            j0 = len(self.handed)
+            clean = True
+            for k in range(cnt):
+                b = burst_block(k)
+                clean = clean and ("b",) + b not in self.owner
+                self.owner.setdefault(("b",) + b, j0 + k)
+                self.handed.append({"step": i, "peer": p, "blocks": [b], "pres": [], "wants": [], "op": "resp",
+                                    "connected": p in self.connected, "burst": True})
+            self.bursts.append({"step": i, "peer": p, "j0": j0, "n": cnt, "clean": clean,
+                                "connected": p in self.connected})
         elif op == "insub" and res.startswith("i"):
             self.in_peer[int(res[1:])] = int(t[1])
             # (a second inbound substream of a peer replaces the first)
@@ -1559,8 +1622,50 @@ class ProtoOracle:
                 self.v("sent-to-wrong-peer", f"{key} was handed over for peer {self.handed[j]['peer']} but written "
                        f"to s{n} of peer {p}", i)
 
+    def finish_bursts(self):
+        """Reference rule `response-command-dropped`: every response handed to `send_response` reaches the event loop
+        (a full command channel suspends the caller, it drops nothing), so - on substreams that were never told to
+        fail - the one-block responses of a burst are written each exactly once, in the order handed over."""
+        for b in self.bursts:
+            if not b["clean"]:
+                continue                     # (a mutated case repeats block contents: not attributable)
+            p, j0, cnt = b["peer"], b["j0"], b["n"]
+            written = set()
+            for n, frames in sorted(self.wire.items()):
+                seq = []
+                for (_i, (kind, _ln, items, _odd)) in frames:
+                    if kind != "B":
+                        continue
+                    for it in items:
+                        j = self.owner.get(("b", it[0], it[1]))
+                        if j is not None and j0 <= j < j0 + cnt:
+                            seq.append(j - j0)
+                if not seq:
+                    continue
+                bad_order = next((k for k in range(1, len(seq)) if seq[k] <= seq[k - 1]), None)
+                gap = next((k for k in range(1, len(seq)) if seq[k] > seq[k - 1] + 1), None)
+                if bad_order is not None:
+                    self.v("blocks-not-sent-once", f"burst of step {b['step']} on s{n}: response {seq[bad_order]} is written "
+                           f"after response {seq[bad_order - 1]} (each once, in the order handed over)", b["step"])
+                elif gap is not None and n not in self.failing:
+                    self.v("response-command-dropped", f"burst of step {b['step']} on s{n}: response {seq[gap - 1]} is followed "
+                           f"by response {seq[gap]}; s{n} was never told to fail", b["step"])
+                written |= set(seq)
+            missing = [k for k in range(cnt) if k not in written]
+            excused = (p in self.sticky or any(i >= b["step"] for i in self.excuse.get(p, []))
+                       or p in self.outstanding.values() or p in self.dialing
+                       or (not b["connected"] and not (1 <= p <= 3)))
+            if missing and not excused:
+                self.v("response-command-dropped", f"burst of step {b['step']}: {len(missing)} of {cnt} responses handed to "
+                       f"send_response (first: number {missing[0]}) reached no substream although nothing failed and nothing is "
+                       f"outstanding for peer {p} (a full command channel must suspend the caller, not drop the response)",
+                       b["step"])
+
     def finish(self, last):
+        self.finish_bursts()
         for j, h in enumerate(self.handed):
+            if h.get("burst"):
+                continue
             want = ([("p",) + x for x in h["pres"]] if h["pres"] else []) + [("b",) + x for x in h["blocks"]]
             want += [("w",) + x for x in h["wants"]]
             if h["op"] == "req" and not h["wants"]:
